@@ -15,6 +15,7 @@ import (
 	"errors"
 	"fmt"
 	"io"
+	"sync/atomic"
 	"time"
 
 	dragonboat "github.com/lni/dragonboat/v4"
@@ -38,9 +39,28 @@ var probeStores = []probeStore{
 	{"pebble", hooks.DefaultLogDBFactory},
 }
 
+// slowSync: the probes' file system is lni/vfs ErrorFS around the strict MemFS with this
+// injector. It injects no error; while armed (during the last SaveRaftState before a power
+// cut) every fsync takes a little while, so that a SaveRaftState that returns before its
+// fsyncs are done is cut before they happen.
+type slowSync struct{ on, pending int32 }
+
+func (s *slowSync) MaybeError(op gvfs.Op) error {
+	if op == gvfs.OpSync {
+		atomic.AddInt32(&s.pending, 1)
+		if atomic.LoadInt32(&s.on) != 0 {
+			time.Sleep(time.Millisecond)
+		}
+		atomic.AddInt32(&s.pending, -1)
+	}
+	return nil
+}
+
+var probeSync = &slowSync{}
+
 func openStore(ps probeStore, fs *gvfs.MemFS) (raftio.ILogDB, error) {
 	cfg := config.NodeHostConfig{NodeHostDir: "/probe", RTTMillisecond: 10, RaftAddress: "probe",
-		Expert: config.ExpertConfig{FS: fs, LogDB: config.GetTinyMemLogDBConfig()}}
+		Expert: config.ExpertConfig{FS: gvfs.Wrap(fs, probeSync), LogDB: config.GetTinyMemLogDBConfig()}}
 	cfg.Expert.LogDB.Shards = 2
 	cfg.Expert.Engine = config.EngineConfig{ExecShards: 2, CommitShards: 2, ApplyShards: 2, SnapshotShards: 2, CloseShards: 2}
 	if err := fs.MkdirAll("/probe", 0755); err != nil {
@@ -111,6 +131,12 @@ func snapshotFiles(fs *gvfs.MemFS, dir string, out fileImage) {
 
 func powerCut(fs *gvfs.MemFS, db raftio.ILogDB) {
 	fs.SetIgnoreSyncs(true)
+	// the power is gone at this instant; whatever the store still has in flight (an fsync it
+	// did not wait for) gets a moment to find that out before the handles are released
+	for i := 0; i < 200 && atomic.LoadInt32(&probeSync.pending) != 0; i++ {
+		time.Sleep(500 * time.Microsecond)
+	}
+	time.Sleep(2 * time.Millisecond)
 	_ = vh.Catch(func() { _ = db.Close() })
 	fs.ResetToSyncedState()
 	fs.SetIgnoreSyncs(false)
@@ -150,7 +176,12 @@ func probeRun(ps probeStore, batches [][]upd, torn []upd) (evs []event, err erro
 	for i, us := range batches {
 		pus := toPB(us)
 		var serr error
-		if p := vh.Catch(func() { serr = db.SaveRaftState(pus, pus[0].ShardID%2+1) }); p != "" {
+		if i == len(batches)-1 && torn == nil {
+			atomic.StoreInt32(&probeSync.on, 1)
+		}
+		p := vh.Catch(func() { serr = db.SaveRaftState(pus, pus[0].ShardID%2+1) })
+		atomic.StoreInt32(&probeSync.on, 0)
+		if p != "" {
 			return nil, fmt.Errorf("SaveRaftState %s: panic %s", ps.name, p)
 		}
 		if serr != nil {
